@@ -5,7 +5,7 @@
    aggregates.py; the input solution sequence is a parameter. *)
 From Coq Require Import Permutation Sorting.Sorted.
 From RV Require Import Modifiers.Model Modifiers.Order Modifiers.Post Modifiers.Agg
-                       Modifiers.Proofs Modifiers.Readings.
+                       Modifiers.Proofs Modifiers.Readings Modifiers.PromoModel Modifiers.PromoProofs.
 
 (* The tie between model and checker: on every well-formed case outside the
    regions of the five known findings the rows the model computes (aggregation
@@ -195,6 +195,59 @@ Theorem C08_having : forall c gv a k,
 Proof. exact having_reading. Qed.
 Print Assumptions C08_having.
 
+(* HAVING on a grouping key without an aggregate: the condition is evaluated on the value the
+   key has in the group (unbound key: error, the group is dropped for = and for !=) *)
+Theorem C08_having_key : forall v ne iri r rows,
+  having_holds (Some (HKey v ne iri)) (r :: rows) =
+  match lookup v r with
+  | None => false
+  | Some t => if ne then negb (term_eqb t (TI iri)) else term_eqb t (TI iri)
+  end.
+Proof. reflexivity. Qed.
+Print Assumptions C08_having_key.
+
+(* ------------------------------------------------------------------ *)
+(* Numeric type promotion, over the table REFLECTED from rdflib/plugins/sparql/datatypes.py
+   (Gen/Tables_promo.v is regenerated from the tree under test at every run, so these are
+   re-proved against the current source).  Codes: 0 integer, 1 decimal, 2 float, 3 double. *)
+Theorem C08_promotion_lattice : forall a b,
+  (a < 4)%N -> (b < 4)%N -> type_promotion a b = Some (N.max a b).
+Proof. exact promo_lattice. Qed.
+Print Assumptions C08_promotion_lattice.
+
+Theorem C08_promotion_symmetric : forall a b,
+  (a < 4)%N -> (b < 4)%N -> type_promotion a b = type_promotion b a.
+Proof. exact promo_comm. Qed.
+Print Assumptions C08_promotion_symmetric.
+
+Theorem C08_promotion_integer_subtypes : forall t, In t integer_subtypes ->
+  forall b, type_promotion t b = type_promotion 0%N b /\ type_promotion b t = type_promotion b 0%N.
+Proof. exact promo_subtypes. Qed.
+Print Assumptions C08_promotion_integer_subtypes.
+
+(* the datatype Sum/Average accumulate is the lattice maximum of the members, in any order *)
+Theorem C08_sum_avg_datatype : forall t r, forallb (fun t => N.ltb t 4) (t :: r) = true ->
+  dt_fold (t :: r) = Some (Some (lattice_max (t :: r))).
+Proof. exact dt_fold_lattice. Qed.
+Print Assumptions C08_sum_avg_datatype.
+
+(* tie for the promotion suite (float/double members; values only up to a tolerance) *)
+Theorem C08_promotion_spec_model : forall c, pwf c = true -> pkf c = 0%N -> pspec c (pmodel c) = true.
+Proof. exact pspec_model. Qed.
+Print Assumptions C08_promotion_spec_model.
+
+Theorem C08_promotion_spec_reading : forall c d v,
+  pspec c (PVal d v) = true -> p_vals c <> [] ->
+  d = (if p_avg c then N.max 1 (lattice_max (map fst (p_vals c))) else lattice_max (map fst (p_vals c))).
+Proof. exact pspec_reading. Qed.
+Print Assumptions C08_promotion_spec_reading.
+
+(* F-C08g: AVG over xsd:float members answers an xsd:double *)
+Theorem C08_avg_float_refuted :
+  exists c, pwf c = true /\ pkf c = 1%N /\ pmodel c = PVal 3 (3, 2)%Z /\ pspec c (pmodel c) = false.
+Proof. exact avg_float_refuted. Qed.
+Print Assumptions C08_avg_float_refuted.
+
 (* The model's aggregation stage satisfies that checker (no finding region). *)
 Theorem C08_agg_stage_model : forall c,
   wf c = true -> kf c = 0%N -> exists a, agg_stage c = Some a /\ agg_ok c a = true.
@@ -270,7 +323,7 @@ Example C08_nonvacuous :
   let c := {| c_input := inp; c_group := Some [0%N];
               c_aggs := [(10, ag ACount false 2); (11, ag ASum false 2); (12, ag AAvg false 2);
                          (13, ag (AConcat [44%N]) true 2)]%N;
-              c_having := Some ({| a_kind := ACount; a_distinct := false; a_arg := None |}, OpGe, 1%Z);
+              c_having := Some (HAgg {| a_kind := ACount; a_distinct := false; a_arg := None |} OpGe 1%Z);
               c_order := [(true, 10%N); (false, 0%N)]; c_proj := Some [0; 10; 11; 12; 13]%N;
               c_distinct := true; c_slice := Some (1, Some 2) |} in
   wf c = true /\ kf c = 0%N /\ spec_ok c (model_obs c) = true
